@@ -336,6 +336,7 @@ func c13cases(rng *rand.Rand, thorough bool) (main, sub, controls []c13case) {
 			main = append(main, c13case{Transport: p.tr, Op: p.op, Pattern: p.pat, TimeoutNS: ms(t)})
 		}
 	}
+	main = append(main, answeredStalledCases(thorough)...)
 	for _, b := range c13bursts {
 		ts := b.quick
 		if thorough {
@@ -349,7 +350,7 @@ func c13cases(rng *rand.Rand, thorough bool) (main, sub, controls []c13case) {
 	// cases that cost 10 s per attempt when they fail run in the side lane
 	keep := main[:0]
 	for _, c := range main {
-		if c.Pattern == "stalledconn" || c.Pattern == "closedpending" || c.Pattern == "brokerlost" || strings.HasPrefix(c.Pattern, "hangup:") || strings.HasPrefix(c.Pattern, "slowwrite:") {
+		if c.Pattern == "stalledconn" || c.Pattern == "closedpending" || c.Pattern == "brokerlost" || strings.HasPrefix(c.Pattern, "hangup:") || strings.HasPrefix(c.Pattern, "slowwrite:") || (isAnsweredStalled(c) && c.stallHold() == 0) {
 			sub = append(sub, c)
 		} else {
 			keep = append(keep, c)
@@ -396,7 +397,7 @@ func runC13(tier string, args []string) int {
 		os.Setenv("VERIF_OUT", ev.ScratchDir()) // a replay never overwrites the committed evidence
 	}
 	run := ev.New("C13", tier, "exploration")
-	run.Rule("case = (transport, timeout T, peer stall pattern, Request|Oneway); adapter over a scripted TTransport (silent, response late by T+50ms / 2T / 2T+400ms, Write blocked for 5T or for good, Flush blocked with and without honouring ctx, underlying Open() stalled for 5T / for good while the call is issued), NATS on an embedded broker (subscriber that never replies, or replies late, or the client-broker TCP connection black-holed by a proxy after a healthy control request), or PublishRequest refused by a 4 KiB max_payload broker followed by a request reusing the FContext), a second call issued while the send of an earlier call on the same transport is still stalled, the transport closed / the broker connection cut T/4 into a pending call, the inbound reader held between registry lookup and delivery of call A's answer while A times out and a fresh call B (silent peer) is issued from the same goroutine (B must time out, never see a response), a write that completes after 0.8T followed by silence (bound T+300ms flat), an HTTP call next to a concurrent call with a much longer timeout on the same transport (ordered through the request-header callback), N concurrent callers x K short-timeout requests on one transport against a peer answering each T+3ms late (slowest call of the burst is what is timed), a request to a silent peer whose timeout fires while the registry's lock is busy (the monitor takes it through VerifLockRegistry at the yield point request.timedOut, i.e. after the expiry and before the call unregisters, and holds it until the call is back or 40 ms have passed: a call that is back before the release has provably left its registration in the registry at return), in the bursts every caller compares, right after its return, the registry size with the number of calls started and not yet returned (finished-before-the-read / started-after-the-read counters, so that the comparison can only err towards silence), HTTP against httptest (handler answering late, never, stalling the body, or stalling d<T then closing the connection unanswered and staying silent on any further connection - bound T+300ms flat there; http.Client without and with a Timeout of its own above / below T); each case attempted 3 times on fresh transports, minimum elapsed compared with T+max(300ms,T); distinct = (transport, op, pattern, T)")
+	run.Rule("case = (transport, timeout T, peer stall pattern, Request|Oneway); adapter over a scripted TTransport (silent, response late by T+50ms / 2T / 2T+400ms, Write blocked for 5T or for good, Flush blocked with and without honouring ctx, underlying Open() stalled for 5T / for good while the call is issued), NATS on an embedded broker (subscriber that never replies, or replies late, or the client-broker TCP connection black-holed by a proxy after a healthy control request), or PublishRequest refused by a 4 KiB max_payload broker followed by a request reusing the FContext), a second call issued while the send of an earlier call on the same transport is still stalled, the transport closed / the broker connection cut T/4 into a pending call, the inbound reader held between registry lookup and delivery of call A's answer while A times out and a fresh call B (silent peer) is issued from the same goroutine (B must time out, never see a response), a write that completes after 0.8T followed by silence (bound T+300ms flat), a write-through TTransport whose Write or Flush hands the request to the peer and then stays blocked for 3T+1s or until Close while the peer answers at once or T/4 later (the answer and TIMED_OUT are both accepted; the call must be back within the bound and the registry is read in the calling goroutine right after the return), an HTTP call next to a concurrent call with a much longer timeout on the same transport (ordered through the request-header callback), N concurrent callers x K short-timeout requests on one transport against a peer answering each T+3ms late (slowest call of the burst is what is timed), a request to a silent peer whose timeout fires while the registry's lock is busy (the monitor takes it through VerifLockRegistry at the yield point request.timedOut, i.e. after the expiry and before the call unregisters, and holds it until the call is back or 40 ms have passed: a call that is back before the release has provably left its registration in the registry at return), in the bursts every caller compares, right after its return, the registry size with the number of calls started and not yet returned (finished-before-the-read / started-after-the-read counters, so that the comparison can only err towards silence), HTTP against httptest (handler answering late, never, stalling the body, or stalling d<T then closing the connection unanswered and staying silent on any further connection - bound T+300ms flat there; http.Client without and with a Timeout of its own above / below T); each case attempted 3 times on fresh transports, minimum elapsed compared with T+max(300ms,T); distinct = (transport, op, pattern, T)")
 	run.Assume("monotonic clock of the Go runtime; a delay present in all 3 attempts of a case is attributed to the code, not to scheduling")
 	run.Assume("rig.ScriptTransport, the embedded nats-server and net/http/httptest behave as scripted")
 	run.Assume("goroutine ids parsed from runtime.Stack identify the calling goroutine in the full dump")
@@ -585,6 +586,8 @@ func runCase(env *c13env, c c13case, body func() []byte) caseResult {
 				a = attemptAdapterLateHandoff(c, body())
 			} else if strings.HasPrefix(c.Pattern, "afterstalled") {
 				a = attemptAdapterAfterStalledSend(c, body())
+			} else if isAnsweredStalled(c) {
+				a = attemptAdapterAnsweredStalledSend(c, body())
 			} else {
 				a = attemptAdapter(c, body())
 			}
@@ -781,6 +784,31 @@ func judge(run *ev.Run, st *c13stats, c c13case, res *caseResult) {
 				fmt.Sprintf("%d of %d concurrent %s requests (timeout %s) on one transport returned while the registry held more registrations than there were calls in flight (first: %s)", a.CallsRegLeft, a.Calls, c.Transport, c.T(), a.RegLeftWitness),
 				witness(nil))
 			break
+		}
+	}
+
+	// 4''. answered while the client's own send is still stalled: the adapter
+	// unregisters before Request returns, so the registry is read in the
+	// calling goroutine right after the return, without any grace period
+	if isAnsweredStalled(c) {
+		for _, a := range res.attempts {
+			switch {
+			case a.Success:
+				run.Add("answered_stalled_send_attempts_returned_the_answer", 1)
+			case a.TimedOut:
+				run.Add("answered_stalled_send_attempts_timed_out", 1)
+			}
+			if strings.HasPrefix(a.SendState, "blocked in") {
+				run.Add("answered_stalled_send_attempts_send_still_blocked_at_return", 1)
+			}
+		}
+		for _, a := range res.attempts {
+			if a.RegAtReturn > 0 {
+				run.Violation(sig("registration-left-at-return"),
+					fmt.Sprintf("%d registration(s) in the registry of the adapter transport at the moment Request (timeout %s) returned %s; the peer had answered while the client's own send was %s", a.RegAtReturn, c.T(), a.ErrClass, a.SendState),
+					witness(nil))
+				break
+			}
 		}
 	}
 
